@@ -127,6 +127,15 @@ def _kind(dtype):
         return "O"
 
 
+def _truthy(x):
+    """truth value of an array element (symbolic booleans decide through the Explorer; they have no != 0)."""
+    from .sym import SB
+
+    if isinstance(x, (SB, bool, _real_np.bool_)):
+        return bool(x)
+    return bool(x != 0)
+
+
 PROXY_TYPES = []  # further scalar proxy classes (e.g. jets) that arrays may hold unchanged
 
 
@@ -692,12 +701,12 @@ class NPShim(types.ModuleType):
     def flatnonzero(self, a):
         if is_sym(a):
             a = _o(a)
-            return _real_np.array([i for i, x in enumerate(a.ravel()) if bool(x != 0)], dtype=int)
+            return _real_np.array([i for i, x in enumerate(a.ravel()) if _truthy(x)], dtype=int)
         return _real_np.flatnonzero(a)
 
     def count_nonzero(self, a, **k):
         if is_sym(a):
-            return int(sum(1 for x in _o(a).ravel() if bool(x != 0)))
+            return int(sum(1 for x in _o(a).ravel() if _truthy(x)))
         return _real_np.count_nonzero(a, **k)
 
     def all(self, a, axis=None, **k):
